@@ -588,6 +588,7 @@ func loadContracts(repo, specDir string) (map[string]*Contract, []GhostDecl, []*
 				continue
 			}
 			c.Clauses, c.Params, c.Results, c.Uses = src.Clauses, src.Params, src.Results, src.Uses
+			c.Defines, c.MayPanic, c.Dead = src.Defines, src.MayPanic, src.Dead
 			if c.Recv != "" && src.Recv != "" {
 				c.Recv = src.Recv
 			}
